@@ -2,5 +2,5 @@ CONSTANTS
   Small = TRUE
   WithPid = FALSE
 SPECIFICATION Spec
-INVARIANT NoWitness
+INVARIANT AltUnitEquivalence
 CHECK_DEADLOCK FALSE
